@@ -37,6 +37,7 @@ Not judged at all: years below 1900 in DATE, fractional serials in YEAR/MONTH/DA
 arguments, ties exactly half way between two seconds.
 """
 import numbers
+import random
 
 from vp import lib, wb
 from vp.core import h64
@@ -63,7 +64,7 @@ FLOORS = {
               'shift_calls': 100000, 'shift:EOMONTH': 50000, 'shift:EDATE': 50000, 'shift:want-#NUM!': 500,
               'yearfrac_pairs': 5000, 'yearfrac:basis=0': 800, 'yearfrac:basis=1': 800, 'yearfrac:basis=2': 800,
               'yearfrac:basis=3': 800, 'yearfrac:basis=4': 800, 'yearfrac:basis=omitted': 800,
-              'hms_cases': 20000, 'hms:delta=0,base=0': 1000, 'tie_cases': 300},
+              'hms_cases': 15000, 'hms:delta=0,base=0': 1000, 'tie_cases': 300},
     'thorough': {'days:in-range': 2958466, 'roundtrip_ok_or_judged': 2958466, 'weekday_period_pairs': 2958459,
                  'hms:delta=0,base=0': 86400, 'hms_cases': 86400 * 10, 'date_triples': 10201 * 20,
                  'shift_calls': 2401 * 2 * 100, 'yearfrac_pairs': 60000, 'tie_cases': 8000,
@@ -81,6 +82,7 @@ ASSUMPTIONS = [
 NUM = cal.NUM
 MAX = cal.MAX_SERIAL
 BLOCK = 1024
+TIE_EVERY = 101          # prime: walks through every residue of the inner loops (6 bases, 16 offsets)
 PYNAME = {'YEAR': 'year', 'MONTH': 'month', 'DAY': 'day', 'DATE': 'date', 'WEEKDAY': 'weekday',
           'EOMONTH': 'eomonth', 'EDATE': 'edate', 'YEARFRAC': 'yearfrac', 'HOUR': 'hour',
           'MINUTE': 'minute', 'SECOND': 'second'}
@@ -238,7 +240,7 @@ def check_day(ctx, ev, n):
     for x, o in zip(window, wds):
         if o[0] == 'x':
             bad += 1
-            ctx.violation('WEEKDAY/raises', f'WEEKDAY({x}) {show(o)}', dict(case, n=x) if x != n else case)
+            ctx.violation('WEEKDAY/raises', f'WEEKDAY({x}) {show(o)}', case)
             vals.append(None)
         elif not (is_int_valued(o[1]) and 1 <= o[1] <= 7):
             bad += 1
@@ -246,9 +248,10 @@ def check_day(ctx, ev, n):
             vals.append(None)
         else:
             vals.append(int(o[1]))
+    if len(window) == 8:
+        ctx.count('weekday_period_pairs')
     if None not in vals:
         if len(vals) == 8:
-            ctx.count('weekday_period_pairs')
             if vals[7] != vals[0]:
                 bad += 1
                 ctx.violation('WEEKDAY/not-period-7', f'WEEKDAY({n}) = {vals[0]} but WEEKDAY({n + 7}) = {vals[7]}', case)
@@ -341,9 +344,9 @@ def sweep_days(ctx, tie):
             if ctx.mine(i):
                 count_day(ctx, n)
                 ctx.count('days:boundary')
-                check_day(ctx, LIB, n)
+                res = check_day(ctx, LIB, n)
                 ctx.case(None)
-                tie(lambda ev, n=n: check_day(ctx, ev, n))
+                tie(check_day, (n,), res[1])
         step = 13 + 2 * (h64(('c17-step', ctx.seed)) % 24)
         off = h64(('c17-off', ctx.seed)) % step
         ctx.count(f'days:stride={step}', 0)
@@ -351,9 +354,9 @@ def sweep_days(ctx, tie):
             if ctx.mine(i) and n not in bset:
                 count_day(ctx, n)
                 ctx.count('days:strided')
-                check_day(ctx, LIB, n)
+                res = check_day(ctx, LIB, n)
                 ctx.case(None)
-                tie(lambda ev, n=n: check_day(ctx, ev, n))
+                tie(check_day, (n,), res[1])
     else:
         nblocks = (MAX + 1 + BLOCK - 1) // BLOCK
         for b in range(nblocks):
@@ -361,31 +364,30 @@ def sweep_days(ctx, tie):
                 lo, hi = b * BLOCK, min((b + 1) * BLOCK, MAX + 1)
                 fast_block(ctx, lo, hi)
                 for n in range(lo, hi):
-                    if n % 100 == tie.phase:
-                        tie.force(lambda ev, n=n: check_day(ctx, ev, n), lambda n=n: check_day(_Quiet(ctx), LIB, n))
+                    if n % TIE_EVERY == tie.phase:
+                        tie.force(check_day, (n,))
     if ctx.shard == 0:
         for n in (-1, -2, MAX + 1, MAX + 2, MAX + 8, 3000000):
             count_day(ctx, n)
-            check_day(ctx, LIB, n)
+            res = check_day(ctx, LIB, n)
             ctx.case(None)
-            tie.force(lambda ev, n=n: check_day(ctx, ev, n), lambda n=n: check_day(_Quiet(ctx), LIB, n))
+            tie.force(check_day, (n,), res[1])
 
 
-class _Quiet:
-    """a sink that drops everything: used to recompute the library-level observation of a case that
-    the fast path already judged, for the comparison with the workbook-level observation"""
+class _Sink:
+    """what a check function writes to when it is re-run for the tie: quiet (library-level re-run of a
+    case the fast path already judged) or with prefixed counters (workbook-level run)"""
 
-    def __init__(self, ctx):
-        self.ctx = ctx
+    def __init__(self, ctx, prefix='', quiet=False):
+        self.ctx, self.prefix, self.quiet = ctx, prefix, quiet
 
-    def violation(self, *a, **k):
-        pass
+    def violation(self, key, msg, case):
+        if not self.quiet:
+            self.ctx.violation(key, msg, case)
 
-    def count(self, *a, **k):
-        pass
-
-    def case(self, *a, **k):
-        pass
+    def count(self, name, n=1):
+        if not self.quiet:
+            self.ctx.count(self.prefix + name, n)
 
 
 # --------------------------------------------------------------------------- DATE normalisation
@@ -416,18 +418,21 @@ def check_date(ctx, ev, y, m, d):
     if not first_ok and want != NUM:
         accept.append(NUM)
         ctx.count('permissive:date-carried-month-outside-range=' + ('#NUM!' if o[1] == NUM else 'serial'))
+    elif not 1900 <= y <= 9999 and want != NUM:
+        accept.append(NUM)                         # an invalid year argument carried back into range
+        ctx.count('permissive:date-year-argument-outside-range=' + ('#NUM!' if o[1] == NUM else 'serial'))
     if any((a == NUM and o[1] == NUM) or (a != NUM and is_number(o[1]) and o[1] == a) for a in accept):
         return 0, observed(outs)
     if d <= 0:
         key = 'DATE/day<=0'
+    elif want == NUM:
+        key = f'DATE/{result_class}-returns-a-value'
     elif d > cal.month_len(yy, mm):
         key = 'DATE/day-beyond-month-end'
     elif not 1 <= m <= 12:
         key = 'DATE/month-carry'
     else:
         key = 'DATE/unclassified'
-    if want == NUM:
-        key += f'/{result_class}-returns-a-value'
     py, pm, pd = (cal.parts(want) if want != NUM else ('-', '-', '-'))
     ctx.violation(key, f'DATE({y},{m},{d}) = {show(o)}; carrying gives day 1 of {yy}-{mm:02d} + {d - 1} days = '
                   f'{want!r} ({py}-{pm}-{pd})', case)
@@ -436,7 +441,7 @@ def check_date(ctx, ev, y, m, d):
 
 def sweep_date(ctx, tie):
     years = list(DATE_YEARS)
-    rng_years = __import__('random').Random(h64(('c17-years', ctx.seed)))
+    rng_years = random.Random(h64(('c17-years', ctx.seed)))
     extra = 3 if ctx.quick else 40
     if not ctx.quick:
         years += [y for y in range(1902, 1912) if y not in years] + [2001, 2400, 4000, 8000]
@@ -452,9 +457,19 @@ def sweep_date(ctx, tie):
             if not ctx.mine(i):
                 continue
             for d in range(-40, 61):
-                check_date(ctx, LIB, y, m, d)
-                tie(lambda ev, a=(y, m, d): check_date(ctx, ev, *a))
+                res = check_date(ctx, LIB, y, m, d)
+                tie(check_date, (y, m, d), res[1])
             ctx.case(None, n=101)
+    if ctx.shard == 0:
+        # year arguments outside 0..9999 (years 0..1899 mean 1900 + y in Excel; the statement does not
+        # say so and they are not judged)
+        for y in (-1, -1900, 10000, 10001, 12000):
+            for m in (-40, -1, 0, 1, 2, 12, 13, 60):
+                for d in (-40, -1, 0, 1, 28, 31, 32, 60):
+                    res = check_date(ctx, LIB, y, m, d)
+                    ctx.count('date:year-argument-outside-0..9999')
+                    ctx.case(None)
+                    tie(check_date, (y, m, d), res[1])
 
 
 # --------------------------------------------------------------------------- EOMONTH / EDATE
@@ -531,7 +546,7 @@ def check_shift(ctx, ev, f, n, k):
 
 def sweep_shift(ctx, tie):
     starts = list(SHIFT_STARTS)
-    rng = __import__('random').Random(h64(('c17-starts', ctx.seed)))
+    rng = random.Random(h64(('c17-starts', ctx.seed)))
     extra = 12 if ctx.quick else 200
     while extra:
         n = rng.choice([rng.randint(0, MAX), rng.randint(0, 80000), rng.randint(MAX - 40000, MAX)])
@@ -547,8 +562,8 @@ def sweep_shift(ctx, tie):
                     continue
                 ks = range(k0, min(k0 + 100, 1201))
                 for k in ks:
-                    check_shift(ctx, LIB, f, n, k)
-                    tie(lambda ev, a=(f, n, k): check_shift(ctx, ev, *a))
+                    res = check_shift(ctx, LIB, f, n, k)
+                    tie(check_shift, (f, n, k), res[1])
                 ctx.case(None, n=len(ks))
 
 
@@ -581,8 +596,8 @@ def check_yearfrac(ctx, ev, a, b, basis):
         same = isinstance(v1, str) and v1 == v2
         ctx.count('yearfrac:error-result')
     if not same:
-        leap = any(cal.parts(x)[:2] == (1900, 2) or x == 0 for x in (a, b) if 0 <= x <= MAX)
-        ctx.violation(f'YEARFRAC/asymmetric/basis-{tag}' + ('/involves-1900-quirk-days' if leap else ''),
+        quirk = any(0 <= x <= 60 for x in (a, b))
+        ctx.violation(f'YEARFRAC/asymmetric/basis-{tag}' + ('/involves-serial<=60' if quirk else ''),
                       f'YEARFRAC({args}) = {show(o1)} but YEARFRAC({sgra}) = {show(o2)}', case)
         return 1, observed(outs)
     return 0, observed(outs)
@@ -598,8 +613,8 @@ def sweep_yearfrac(ctx, tie):
             i += 1
             if ctx.mine(i):
                 for basis in bases:
-                    check_yearfrac(ctx, LIB, a, b, basis)
-                    tie(lambda ev, x=(a, b, basis): check_yearfrac(ctx, ev, *x))
+                    res = check_yearfrac(ctx, LIB, a, b, basis)
+                    tie(check_yearfrac, (a, b, basis), res[1])
                 ctx.case(None, n=len(bases))
     if ctx.shard == 0:
         for a, b in ((-1, 5), (5, MAX + 1), (-1, MAX + 1), (MAX, MAX + 1), (0, -1)):
@@ -631,9 +646,9 @@ def sweep_yearfrac(ctx, tie):
             continue
         a, b = min(a, b), max(a, b)
         for basis in bases:
-            check_yearfrac(ctx, LIB, a, b, basis)
+            res = check_yearfrac(ctx, LIB, a, b, basis)
             ctx.case(('yf', a, b, basis))
-            tie(lambda ev, x=(a, b, basis): check_yearfrac(ctx, ev, *x))
+            tie(check_yearfrac, (a, b, basis), res[1])
 
 
 # --------------------------------------------------------------------------- HOUR / MINUTE / SECOND
@@ -678,7 +693,7 @@ def check_hms(ctx, ev, base, k, delta):
 
 
 def sweep_hms(ctx, tie):
-    rng = __import__('random').Random(h64(('c17-hms', ctx.seed)))
+    rng = random.Random(h64(('c17-hms', ctx.seed)))
     day = rng.randint(2, 60000)
     combos = [(0, dl) for dl in DELTAS] + [(day, dl) for dl in DELTAS] + \
              [(b, 0.0) for b in (1, 60, 61, 45000, MAX)] + [(MAX, -0.25)]
@@ -694,56 +709,50 @@ def sweep_hms(ctx, tie):
         for base, delta in combos:
             if base == 0 and k == 0 and delta < 0:
                 continue
-            check_hms(ctx, LIB, base, k, delta)
-            tie(lambda ev, a=(base, k, delta): check_hms(ctx, ev, *a))
+            res = check_hms(ctx, LIB, base, k, delta)
+            tie(check_hms, (base, k, delta), res[1])
         ctx.case(None, n=len(combos))
     if ctx.shard == 0:
         for base, k, delta in ((0, 0, -0.25), (0, 0, -8640.0), (-1, 0, 0.0), (-1, 43200, 0.0),
                                (MAX + 1, 43200, 0.0), (MAX + 1, 0, 0.0), (1000000, 3661, 0.0)):
-            check_hms(ctx, LIB, base, k, delta)
+            res = check_hms(ctx, LIB, base, k, delta)
             ctx.case(None)
-            tie.force(lambda ev, a=(base, k, delta): check_hms(ctx, ev, *a),
-                      lambda a=(base, k, delta): check_hms(_Quiet(ctx), LIB, *a))
+            tie.force(check_hms, (base, k, delta), res[1])
 
 
 # --------------------------------------------------------------------------- the 1 % tie to evaluate
 
 class Tie:
-    """every 100th library-level case is judged a second time through ExcelCompiler (same oracle, same
-    mechanism keys) and its observation compared with the library-level one"""
+    """every 101st library-level case is judged a second time through ExcelCompiler (same oracle, same
+    mechanism keys, counters prefixed wb:) and its observation compared with the library-level one"""
 
     def __init__(self, ctx):
         self.ctx = ctx
-        self.phase = h64(('c17-tie', ctx.seed)) % 100
+        self.phase = h64(('c17-tie', ctx.seed)) % TIE_EVERY
         self.i = 0
-        self.last = None
 
-    def __call__(self, again):
-        """call right after the library-level check of a case; ``again(ev)`` re-runs that check"""
+    def __call__(self, check, args, seen_lib=None):
+        """call right after the library-level ``check(ctx, LIB, *args)``"""
         self.i += 1
-        if self.i % 100 != self.phase:
+        if self.i % TIE_EVERY != self.phase:
             return
         if self.ctx.out_of_time():
             self.ctx.count('tie_skipped_out_of_time')
             return
-        self.force(again, lambda: again(_LibQuiet))
+        self.force(check, args, seen_lib)
 
-    def force(self, again, lib_again):
-        _, seen_wb = again(WB)
-        _, seen_lib = lib_again()
+    def force(self, check, args, seen_lib=None):
+        if seen_lib is None:
+            seen_lib = check(_Sink(self.ctx, quiet=True), LIB, *args)[1]
+        seen_wb = check(_Sink(self.ctx, prefix='wb:'), WB, *args)[1]
+        self.ctx.case(None, nontrivial=False)
         self.ctx.count('tie_cases')
+        self.ctx.count('tie:' + check.__name__)
         if seen_wb == seen_lib:
             self.ctx.count('tie:evaluate-same-as-library-call')
         else:
             self.ctx.count('tie:evaluate-differs-from-library-call')
-            self.ctx.note(f'evaluate {seen_wb!r} vs library call {seen_lib!r}')
-
-
-class _LibQuietEval(LibEval):
-    mode = 'lib'
-
-
-_LibQuiet = _LibQuietEval()
+            self.ctx.note(f'{check.__name__}{args!r}: evaluate {seen_wb!r} vs library call {seen_lib!r}')
 
 
 def run(ctx):
@@ -754,6 +763,8 @@ def run(ctx):
     sweep_hms(ctx, tie)
     sweep_yearfrac(ctx, tie)
     sweep_days(ctx, tie)
+    if ctx.shard:
+        return
     ctx.sample({'part': 'day', 'n': 60, 'YEAR/MONTH/DAY': [lib.call(f, 60) for f in ('year', 'month', 'day')],
                 'DATE(1900,2,29)': lib.call('date', 1900, 2, 29)})
     ctx.sample({'part': 'date', 'args': [2020, 3, 0], 'DATE': lib.call('date', 2020, 3, 0),
